@@ -246,7 +246,7 @@ def failure_is_error(program, body, pred, terms=None, norm=None):
     edge on which it was *not* found Ok/Some no Ok return of `body` is reachable.  A result that is dropped (`.ok()`,
     `let _ =`, `unwrap_or*`) has no test; a result whose Err arm falls through to success has an Ok after a failure edge.
     -> (holds, witness string, ok edges, other edges)"""
-    ok, bad = success_edges(program, body, pred, terms)
+    ok, bad = success_edges(program, body, pred, terms, N=getattr(norm, "__self__", None))
     if not ok and not bad:
         # not tested here — but it may be *forwarded*: the function returns x.map(..).map_err(..) (or x itself), whose
         # normal form is a selection on x with an Err/None value on x's failure side
@@ -272,7 +272,8 @@ def failure_is_error(program, body, pred, terms=None, norm=None):
         return False, "the value is never tested: its error is dropped", ok, bad
     oks = [s["bb"] for s in outcome_sites(body) if s["kind"] == "Ok" and s["path"] == ()]
     for sb, sc in bad:
-        r = body.reachable(sc, follow_yield_drop=False)
+        # (a later test that finds the value — or what was selected from it — Ok is not on a failure path)
+        r = body.reachable(sc, removed_edges=ok, follow_yield_drop=False)
         hit = [o for o in oks if o in r]
         if hit:
             return False, "an Ok return (bb%d) is reachable from the failure edge bb%d->bb%d" % (hit[0], sb, sc), ok, bad
@@ -1854,9 +1855,11 @@ def tests_presence_of(t, pred):
     return bool(r and any(pred(s) for s in _subjects(r[0], True)))
 
 
-def success_edges(program, body, pred, terms=None):
+def success_edges(program, body, pred, terms=None, N=None):
     """CFG edges (switch block, successor) asserting that a value satisfying pred is Some/Ok/Continue, and the
-    complementary failure edges of the same switches: ([(sb, succ)], [(sb, succ)])"""
+    complementary failure edges of the same switches: ([(sb, succ)], [(sb, succ)]).  With a Normalizer N a test on a value
+    that was *selected* from the tested one (`let r = match x {Ok(v) => .., Err(e) => Err(e)}; r?`) counts too: the edge
+    is reduced to the tests it implies (normal.norm_cond)."""
     T = terms or Terms(program, body)
     ok, bad = [], []
     for sb, blk in enumerate(body.blocks):
@@ -1864,13 +1867,21 @@ def success_edges(program, body, pred, terms=None):
         if not t or t["k"] != "switch" or blk["cleanup"]:
             continue
         term = simplify_term(T.operand(t["op"], sb, "t"))
-        if not tests_presence_of(term, pred) and presence_test(term, ("in", "1")) is None:
+        if N is not None:
+            from . import normal as _normal
+            term = N.norm(term)
+        elif not tests_presence_of(term, pred) and presence_test(term, ("in", "1")) is None:
             continue
         for succ in sorted(set(body.succs(sb))):
             labs = edge_label(body, sb, succ)
-            if asserts_ok(term, labs, pred):
+            implied = [(term, labs)]
+            if N is not None:
+                implied = _normal.norm_cond(term, labs)
+                if implied is None:
+                    continue
+            if any(asserts_ok(t2, l2, pred) for t2, l2 in implied):
                 ok.append((sb, succ))
-            elif presence_test(term, labs) is not None and any(pred(s) for s in _subjects(presence_test(term, labs)[0], False)):
+            elif any(presence_test(t2, l2) is not None and any(pred(s) for s in _subjects(presence_test(t2, l2)[0], False)) for t2, l2 in implied):
                 bad.append((sb, succ))
     return ok, bad
 
